@@ -282,10 +282,12 @@ static void reductions(vh::Rng& r, int n) {
     arr_real x(n), y(n);
     arr_cmplx z(n), w(n);
     const bool wide = r.coin();
+    //non-wide data sit on a mean offset of up to 1e8 standard deviations (cancellation in one-pass variance formulas)
+    const double offset = wide ? 0.0 : ((r.below(3) == 0) ? 0.5 : r.logmag(1.0, 1e8));
     for (int i = 0; i < n; ++i) {
-        x[i] = wide ? special_real(r, int(r.below(8))) : r.gauss() + 0.5;
+        x[i] = wide ? special_real(r, int(r.below(8))) : r.gauss() + offset;
         y[i] = r.gauss();
-        z[i] = wide ? special_cmplx(r, int(r.below(12))) : cmplx_t{r.gauss(), r.gauss()};
+        z[i] = wide ? special_cmplx(r, int(r.below(12))) : cmplx_t{r.gauss() + offset, r.gauss() - 0.5 * offset};
         w[i] = cmplx_t{r.gauss(), r.gauss()};
         //keep squares finite
         if (std::fabs(x[i]) > 1e100) {
@@ -293,7 +295,7 @@ static void reductions(vh::Rng& r, int n) {
         }
     }
     vh::begin_case("reductions", "n=%d wide=%d", n, int(wide));
-    const std::string ctx = vh::fmt("(n=%d, %s values, seed %llu)", n, wide ? "1e+-100 magnitudes and special points" : "gaussian", (unsigned long long)vh::g.seed);
+    const std::string ctx = vh::fmt("(n=%d, %s values, seed %llu)", n, wide ? "1e+-100 magnitudes and special points" : vh::fmt("gaussian + offset %.3g", offset).c_str(), (unsigned long long)vh::g.seed);
     ld sx = 0, sax = 0, sxx = 0, mxv = -INFINITY, mnv = INFINITY;
     int imx = 0, imn = 0;
     for (int i = 0; i < n; ++i) {
@@ -584,6 +586,30 @@ static void shapes(vh::Rng& r, bool thorough) {
                     vh::violation(vh::fmt("C17/arange_int/value/%s", cls), vh::fmt("arange(%d,%d,%d) returned %d values %s, expected %zu values start+k*step strictly before stop", a, b, s, g.size(), head(g).c_str(), want.size()));
                 }
             }
+        }
+    }
+    //fractional aranges with an integral count over decimal steps and starts (the count must not depend on how the quotient rounds)
+    for (int t = 0; t < 4000; ++t) {
+        const double st = r.pick(std::vector<double>{0.1, 0.01, 0.2, 0.3, 0.7, 0.001, -0.1, -0.01, -0.3, 0.05, 1e-4, 2.5});
+        const double a = double(r.range(-50, 50)) * r.pick(std::vector<double>{1.0, 0.1, 0.01, 0.25});
+        const int n = int(r.range(1, 300));
+        const double b = a + st * n;
+        //only cases whose count is integral to within a few ulp of the quotient (as the statement says)
+        const double q = (b - a) / st;
+        if (std::fabs(q - std::round(q)) > 1e-9 * std::fabs(q) || int(std::round(q)) != n) {
+            continue;
+        }
+        vh::begin_case("arange_frac", "arange(%.17g,%.17g,%.17g)", a, b, st);
+        const arr_real f = dl::arange(a, b, st);
+        vh::Hasher h;
+        h.s("arangef2").d(a).d(b).d(st);
+        vh::count(h.get(), true);
+        bool ok = f.size() == n;
+        for (int i = 0; ok && i < n; ++i) {
+            ok = fabsl(ld(f[i]) - (ld(a) + ld(st) * i)) <= 8 * E * (fabsl(ld(a)) + fabsl(ld(b)) + 1);
+        }
+        if (!ok) {
+            vh::violation("C17/arange_frac/value", vh::fmt("arange(%.17g, %.17g, %.17g) returned %d values (the count (stop-start)/step = %d is integral)", a, b, st, f.size(), n));
         }
     }
     //arange(int stop), fractional arange with integral count
